@@ -143,7 +143,7 @@ def init (c : Cfg) (restored : Option Val) (initdef : Val) : InitRes × List Cal
 
 structure ExpCfg where
   v : Cfg
-  duration : Nat          -- t_valid, in the unit of `now`
+  duration : Option Nat   -- t_valid, in the unit of `now`; `none` = infinite (no timer is started)
   expired : Val           -- `self._expired`: the VALIDATED (converted) expired value
 
 inductive St where
@@ -190,9 +190,63 @@ def calcOutput (e : ExpCfg) (st : St) (input : Option Val) : Val :=
 def initExp (e : ExpCfg) (inp : Option Val) : Option ExpState :=
   match inp with
   | some w =>       -- Goto('valid'): output := sdata['input'], timer started
-    if w.isUndef then none else some ⟨.valid, some w, w, 0, some e.duration⟩
+    if w.isUndef then none else some ⟨.valid, some w, w, 0, e.duration⟩
   | none =>         -- Goto('expired'): output := the expired value
     if e.expired.isUndef then none else some ⟨.expired, none, e.expired, 0, none⟩
+
+/-- what `FSM.get_state` saved for an InputExp: the state, the time the timer still had to run at
+    the moment of the restart (`none` = no timer was running, `≤ 0` = overdue) and `sdata['input']` -/
+structure SavedExp where
+  st : St
+  remaining : Option Int
+  input : Option Val
+  deriving DecidableEq, Repr, Inhabited
+
+inductive RestoreRes where
+  | restored (s : ExpState)
+  | ignored                 -- `FSM._restore_state` returned without restoring (overdue timer)
+  | failed                  -- an exception: `init_from_persistent_data` logs it
+  deriving DecidableEq, Repr, Inhabited
+
+/-- `FSM._restore_state` as far as an InputExp is concerned: an overdue state is ignored, a
+    timestamp on the untimed state 'expired' is an error, otherwise timer, state and sdata are
+    taken over and the output is set from `calc_output` -/
+def fsmRestore (e : ExpCfg) (sv : SavedExp) : RestoreRes :=
+  let go (deadline : Option Nat) : RestoreRes :=
+    match sv.st, sv.input with
+    | .valid, none => .failed                               -- calc_output: KeyError
+    | st, input => .restored ⟨st, input, setOut .undef (calcOutput e st input), 0, deadline⟩
+  match sv.remaining with
+  | none => go none
+  | some r =>
+    if r ≤ 0 then .ignored
+    else match sv.st with
+      | .expired => .failed                                 -- cannot set a timer for a not timed state
+      | .valid => go (some r.toNat)
+
+/-- `InputExp._restore_state` (with patches/C17-inputexp-restore-unvalidated.diff): the saved value of
+    a 'valid' state passes through `_validate` BEFORE the FSM restores anything (no timer is armed
+    for a refused state); what is kept is the converted value, as in `Input._restore_state` -/
+def restoreExp (e : ExpCfg) (sv : SavedExp) : RestoreRes × List Call :=
+  match sv.st with
+  | .expired => (fsmRestore e sv, [])
+  | .valid =>
+    match sv.input with
+    | none => (.failed, [])                                 -- sdata['input']: KeyError
+    | some v =>
+      match validate e.v v with
+      | none => (.failed, calls e.v v)                      -- ValueError
+      | some w => (fsmRestore e { sv with input := some w }, calls e.v v)
+
+/-- start-up of a (persistent) InputExp: the saved state if there is one and it can be restored,
+    otherwise – refused, overdue, broken – the regular initialisation -/
+def startExp (e : ExpCfg) (inp : Option Val) (saved : Option SavedExp) : Option ExpState × List Call :=
+  match saved with
+  | none => (initExp e inp, [])
+  | some sv =>
+    match restoreExp e sv with
+    | (.restored s, cl) => (if s.out.isUndef then initExp e inp else some s, cl)
+    | (_, cl) => (initExp e inp, cl)
 
 /-- event `put`: `cond_put` validates; a refusal leaves everything (also the timer) alone,
     an accepted value is kept in `sdata`, the state becomes 'valid' and the timer restarts -/
@@ -200,7 +254,7 @@ def putExp (e : ExpCfg) (s : ExpState) (v : Val) : ExpState × Bool × List Call
   match validate e.v v with
   | none => (s, false, calls e.v v)
   | some w =>
-    ({ s with st := .valid, input := some w, deadline := some (s.now + e.duration),
+    ({ s with st := .valid, input := some w, deadline := e.duration.map (s.now + ·),
               out := setOut s.out (calcOutput e .valid (some w)) }, true, calls e.v v)
 
 /-- the timer of state 'valid' fired: `Goto('expired')` -/
